@@ -172,6 +172,10 @@ pub enum CfgChange {
     Unbonding(u32),
     /// all sections at once with current values
     Identity,
+    /// identity changes (C09 profile only): staker / collector := native account i; channel := other or back
+    Staker(u8),
+    Collector(u8),
+    Channel(bool),
 }
 
 #[derive(Clone, Debug, PartialEq, Serialize, Deserialize)]
@@ -212,9 +216,21 @@ pub enum Op {
     Stake { user: Caller, amt: Amt, to: Recip, flag: Option<bool>, exp: ExpSel, funds: Funds, fail: Option<u8> },
     Unstake { user: Caller, amt: Amt, funds: Funds },
     /// align: 0 none, 1 => first move the clock to due-1, 2 => to due, 3 => to due+1
-    SubmitBatch { user: Caller, align: u8 },
+    SubmitBatch {
+        user: Caller,
+        #[serde(default)]
+        align: u8,
+    },
     Withdraw { user: Caller, batch: u8 },
-    DeliverUnstaked { batch: u8, amt: DelAmt, who: HookWho, other_channel: bool, wrong_denom: bool, align: u8 },
+    DeliverUnstaked {
+        batch: u8,
+        amt: DelAmt,
+        who: HookWho,
+        other_channel: bool,
+        wrong_denom: bool,
+        #[serde(default)]
+        align: u8,
+    },
     DeliverRewards { amt: Amt, who: HookWho, other_channel: bool, wrong_denom: bool, fail: bool },
     Resolve { pkt: u8, outcome: Outcome },
     Stray { kind: StrayKind, sel: u8 },
@@ -300,6 +316,8 @@ pub struct Profile {
     /// admin-forced recovery lists may contain in-flight ids (C07/C08 only)
     pub forced_inflight: bool,
     pub fail_injection: bool,
+    /// UpdateConfig may change staker, collector and channel (C09)
+    pub identity_changes: bool,
 }
 
 impl Profile {
@@ -332,6 +350,7 @@ impl Profile {
             short_periods: true,
             forced_inflight: false,
             fail_injection: true,
+            identity_changes: false,
         }
     }
 }
@@ -499,7 +518,13 @@ pub fn op_strategy(p: &Profile) -> BoxedStrategy<Op> {
         2 => (0u32..4000).prop_map(CfgChange::BatchPeriod),
         2 => (0u32..4000).prop_map(CfgChange::Unbonding),
         1 => Just(CfgChange::Identity),
+        3 => prop_oneof![(0u8..6).prop_map(CfgChange::Staker), (0u8..6).prop_map(CfgChange::Collector), any::<bool>().prop_map(CfgChange::Channel)],
     ];
+    let ident = p.identity_changes;
+    let change = change.prop_map(move |c| match c {
+        CfgChange::Staker(_) | CfgChange::Collector(_) | CfgChange::Channel(_) if !ident => CfgChange::Identity,
+        c => c,
+    });
     let config = (privileged(p), change).prop_map(|(user, change)| Op::UpdateConfig { user, change });
     let validator = (privileged(p), any::<bool>(), 0u8..6).prop_map(|(user, add, sel)| Op::Validator { user, add, sel });
     let any_caller = || {
